@@ -1236,4 +1236,18 @@ theorem modify_where_spec_witness : ¬ Statement_modify_where_spec := by
   revert hx
   decide +kernel
 
+/-- the evaluator hands out no term it was not given: every solution of a WHERE clause — also of a full-algebra one, through
+    `evalPart_below`: an induction over every operator of `RV.C04.Model.evalPart` — binds terms of the dataset, constants of
+    the pattern or booleans; in particular no minted node at or above the supply counter.  So `minted_nodes_new` and
+    `prepared_update_stateless` cover requests with such WHERE clauses: `Op.wf` only asks that the text of the pattern
+    mentions no minted node (`Modify.algSpelled`), which no request text can. -/
+def Statement_alg_solutions_below : Prop :=
+  ∀ (c : Cfg) (u : Modify) (s : St), u.algSpelled → FreshInv s → ∀ μ ∈ u.solutions c s, BBelow s.next μ
+
+theorem alg_solutions_below : Statement_alg_solutions_below :=
+  fun c u _ ha h => bbelow_solutions c u ha h
+
+example : optModify.algSpelled := by
+  simp [Modify.algSpelled, optModify, optPattern, AlgSpelled, ExprSpelled, TPSpelled, PosSpelled, CSpelled]
+
 end RV.C10
